@@ -74,12 +74,16 @@ func NewRecorder(rng *rand.Rand, prof Profile) (*Recorder, error) {
 	now := uint32(time.Now().Unix())
 	bt := uint32(10)
 	gts := now - 1_000_000
-	gts -= gts % bt
+	// the genesis timestamp takes every residue modulo the block time (LIP-0014 counts slots from the genesis
+	// timestamp itself; a slot calculator that assumes an aligned genesis is caught by slotoracle.go)
+	gts = gts - gts%bt + uint32(rng.Intn(int(bt)))
 	k := 0
 	if prof.TieBreak {
 		bt = tieBlockTime
 		k = 8 + rng.Intn(30)
-		gts = now - uint32(k)*bt - bt/2
+		// the wall clock lies in the middle quarter of slot k (weeks away from both boundaries); its exact phase,
+		// and with it the residue of the genesis timestamp, is drawn per history
+		gts = now - uint32(k)*bt - 3*(bt/8) - uint32(rng.Intn(int(bt/4)))
 	}
 	cfg := node.Config{NumValidators: nv, BatchSize: bs, Seed: int64(rng.Intn(1 << 30)), GenesisTimestamp: gts, BlockTime: bt,
 		MaxBlockCache: cache, KeepEventsForHeights: &keep, ExtraValidators: 1, GenesisHeight: gh}
